@@ -427,12 +427,17 @@ def run_tsan(prop, stage, seed, tier):
     st, rc, text = run_proc([binpath] + common_args(stage, seed, tier, out), env=env, timeout=tmo, mem_gb=None)
     rep = load_report(out) or empty_report(prop, stage)
     nrep = text.count("WARNING: ThreadSanitizer")
+    m = re.search(r"ThreadSanitizer: reported (\d+) warnings", text)
+    if m:
+        nrep = max(nrep, int(m.group(1)))
+    if rc == 66 and nrep == 0:
+        nrep = 1  # exitcode=66 is reserved for reports; the header may be outside the kept output tail
     rep["counters"]["tsan_reports"] = nrep
     if st == "timeout":
         rep["inconclusive"].append({"sig": "watchdog|%s" % stage.label(), "count": 1, "examples": [{"timeout_s": tmo}]})
         return rep
     if nrep:
-        m = re.search(r"WARNING: ThreadSanitizer: ([^\n(]*)", text)
+        m = re.search(r"(?:WARNING|SUMMARY): ThreadSanitizer: ([a-z -]*[a-z])", text)
         rep["violations"].append({"sig": "tsan|%s|%s" % (m.group(1).strip() if m else "report", first_repo_frame(text)),
                                   "count": nrep, "examples": [{"stage": stage.label(), "output_tail": text[-3000:]}]})
         return rep
@@ -575,9 +580,17 @@ def run_property(prop, spec, seed, tier):
     for item in shard:
         done.append(one(item))
     reports = []
+    failed = [(st, rep) for _, st, rep, _ in done if isinstance(rep, HarnessError)]
+    any_violation = any(not isinstance(rep, HarnessError) and rep.get("violations") for _, _, rep, _ in done)
     for i, st, rep, dt in sorted(done, key=lambda x: x[0]):
         if isinstance(rep, HarnessError):
-            raise rep
+            if not any_violation:
+                raise rep
+            # other stages did observe violations: report those, and this stage as inconclusive
+            log("HARNESS-ERROR (stage %s): %s" % (st.label(), str(rep)[-1500:]))
+            e = empty_report(prop, st)
+            e["inconclusive"].append({"sig": "stage-failed|%s" % st.label(), "count": 1, "examples": []})
+            rep = e
         log("[stage] %s: evals=%d distinct=%d viol_sigs=%d (%.1fs)" % (
             st.label() + ("/t%s" % st.threads if st.threads else ""), rep.get("evaluations", 0),
             rep.get("distinct_nontrivial", 0), len(rep.get("violations", [])), dt))
